@@ -8,6 +8,7 @@ CONSTANTS
   Coords = {"A", "X"}
   OpKinds = {"CreateStream", "DeleteStream", "CreateGroup", "JoinGroup", "LeaveGroup", "ChangeCoordinator"}
   Variants = {"custom"}
+  Extras = {}
   MaxOps = 3
   MaxSnaps = 1
   MaxRestarts = 1
